@@ -369,8 +369,11 @@ func checkC10(c C10Case) h.Outcome {
 	return o
 }
 
-func TestC10(t *testing.T)        { h.RunProp(t, "C10", genC10, checkC10) }
-func TestC10_Replay(t *testing.T) { h.RunReplay(t, "C10", checkC10); h.RunReplay(t, "C10.attack", checkC10Attack) }
+func TestC10(t *testing.T) { h.RunProp(t, "C10", genC10, checkC10) }
+func TestC10_Replay(t *testing.T) {
+	h.RunReplay(t, "C10", checkC10)
+	h.RunReplay(t, "C10.attack", checkC10Attack)
+}
 
 // TestC10_PAttack: the general attacker engine with a logout message as the working document.
 func genC10Attack(t *rapid.T) AttackCase {
